@@ -139,6 +139,12 @@ class SymStr:
             return NotImplemented
         return SymStr(o.cells + self.cells, self.kind)
 
+    def __mul__(self, k):
+        if isinstance(k, int) and not isinstance(k, bool):
+            return SymStr(self.cells * max(k, 0), self.kind)
+        return NotImplemented
+    __rmul__ = __mul__
+
     def __eq__(self, o):
         try:
             o = SymStr.of(o, self.kind)
@@ -546,6 +552,12 @@ class SymBytes:
             return SymBytes(SymBytes.of(o).nibs + self.nibs)
         except TypeError:
             return NotImplemented
+
+    def __mul__(self, k):
+        if isinstance(k, int) and not isinstance(k, bool):
+            return SymBytes(self.nibs * max(k, 0))
+        return NotImplemented
+    __rmul__ = __mul__
 
     def __getitem__(self, k):
         if isinstance(k, slice):
